@@ -53,8 +53,19 @@ func (ex *Exec) specialExtern(st *State, call *ast.CallExpr, key string, callee 
 			}
 			if t != nil && len(vs) == 2 {
 				// table fact from the initialiser: every stored value on this side has this dynamic type
-				ex.assumedExt[key+" on a package-level table (table fact from its initialiser: uniform dynamic type "+t.String()+")"] = true
+				ex.assumedExt[key+" on a package-level table (table fact from its initialiser: uniform dynamic type "+t.String()+", constant integer entries)"] = true
 				st.assume(Implies(vs[1].C[0], Eq(vs[0].C[0], typeTag(t))))
+				ints := f.valInts
+				if key == "astikit.BiMap.GetInverse" {
+					ints = f.keyInts
+				}
+				if len(ints) > 0 && len(ints) <= 64 {
+					var ds []*Term
+					for _, n := range ints {
+						ds = append(ds, Eq(vs[0].C[1], IntLit(n)))
+					}
+					st.assume(Implies(vs[1].C[0], Or(ds...)))
+				}
 			}
 		} else {
 			ex.assumedExt[key+" (total; result type unconstrained)"] = true
@@ -260,6 +271,9 @@ func (ex *Exec) regexpFind(st *State, call *ast.CallExpr, key string, callee *ty
 		for g := int64(0); g < ngroups; g++ {
 			lo, hi := at(2*g), at(2*g+1)
 			valid := And(Le(IntLit(0), lo), Le(lo, hi), Le(hi, slen), Le(at(0), lo), Le(hi, at(1)))
+			if g == 0 && f.minLen > 0 {
+				valid = And(valid, Le(Add(lo, IntLit(int64(f.minLen))), hi))
+			}
 			if f.always[g] {
 				cs = append(cs, valid)
 			} else {
@@ -271,8 +285,7 @@ func (ex *Exec) regexpFind(st *State, call *ast.CallExpr, key string, callee *ty
 	switch {
 	case key == "regexp.Regexp.FindStringSubmatch":
 		// nil or 1+n strings
-		st.assume(Or(Eq(p.len, IntLit(0)), Eq(p.len, IntLit(ngroups))))
-		st.assume(Implies(Neq(p.len, IntLit(0)), Neq(p.arr, IntLit(0))))
+		st.assume(Or(And(Eq(p.arr, IntLit(0)), Eq(p.len, IntLit(0))), And(Neq(p.arr, IntLit(0)), Eq(p.len, IntLit(ngroups)))))
 	case key == "regexp.Regexp.FindStringSubmatchIndex" || key == "regexp.Regexp.FindStringIndex":
 		if key == "regexp.Regexp.FindStringIndex" {
 			ngroups = 1
